@@ -27,7 +27,11 @@ KindCmd(k) == CASE k = "register" -> CmdRegister [] k = "unregister" -> CmdUnreg
                 [] k = "listidentity" -> CmdListIdentity [] k = "listinterfaces" -> CmdListInterfaces
                 [] k \in {"rr", "fwdopen", "fwdclose"} -> CmdSendRR [] k = "unit" -> CmdSendUnit [] k = "badcmd" -> 153
 
-CipOf(C, f) == IF f.wrap = "simple" THEN EncReq(C, f.req) ELSE EncUnconnectedSend(5, 157, EncReq(C, f.req), f.route)
+\* Unconnected Send time-out fields: priority/tick exponent and tick count ((1 << priority) * ticks milliseconds); 5 / 157 unless the
+\* frame says otherwise
+UPrio(f) == IF "uprio" \in DOMAIN f THEN f.uprio ELSE 5
+UTicks(f) == IF "uticks" \in DOMAIN f THEN f.uticks ELSE 157
+CipOf(C, f) == IF f.wrap = "simple" THEN EncReq(C, f.req) ELSE EncUnconnectedSend(UPrio(f), UTicks(f), EncReq(C, f.req), f.route)
 
 FrameBytes(C, f) ==
   CASE f.kind = "register" -> EncEnip(CmdRegister, f.sess, 0, f.ctx, 0, RegisterPayload)
